@@ -657,9 +657,7 @@ func (v Value) export() interface{} {
 			var t, first reflect.Type
 			for index := range length {
 				name := strconv.FormatInt(int64(index), 10)
-				if !obj.hasProperty(name) {
-					continue
-				}
+				// A hole reads as undefined (and exports as nil): it keeps its index.
 				value := obj.get(name).export()
 
 				t = reflect.TypeOf(value)
